@@ -135,6 +135,15 @@ func runTCP(c *Case, r *mon.Rec, rng *rand.Rand) {
 	s := &server.Server{OnErrorFunc: func(error) {}, WriteTimeout: 2 * time.Second} // (the default 50 ms write timeout is scheduling noise on a loaded machine)
 	addrCh := make(chan net.Addr, 1)
 	s.OnServeFunc = func(a net.Addr) { addrCh <- a }
+	var rejectNext atomic.Bool
+	if c.Seed%4 != 0 {
+		s.OnAcceptConnFunc = func(context.Context, net.Addr, uint64) error {
+			if rejectNext.Swap(false) {
+				return errors.New("no room")
+			}
+			return nil
+		}
+	}
 	ctx, cancel := context.WithCancel(context.Background())
 	defer cancel()
 	served := make(chan error, 1)
@@ -150,7 +159,25 @@ func runTCP(c *Case, r *mon.Rec, rng *rand.Rand) {
 		return
 	}
 	var conns []net.Conn
-	for i := 0; i < 1+rng.Intn(3); i++ {
+	nCli := 1 + rng.Intn(3)
+	rejectAt := rng.Intn(2 * nCli) // (half of the cases have no rejected client)
+	for i := 0; i < nCli; i++ {
+		if i == rejectAt && s.OnAcceptConnFunc != nil {
+			// a client the accept callback turns away: it is closed by the server, and it keeps its own socket open
+			// afterwards (a pooled connection nobody looks at) while the next clients connect and the server is stopped
+			rejectNext.Store(true)
+			rj, err := net.DialTimeout("tcp", addr.String(), 2*time.Second)
+			if err != nil {
+				r.Cover("tcp", "unavailable")
+				return
+			}
+			_ = rj.SetReadDeadline(time.Now().Add(3 * time.Second))
+			if _, err := rj.Read(make([]byte, 1)); err == nil || errors.Is(err, osErrDeadline) {
+				r.Violate(c, "rejected-connection-not-closed", mon.Attrs{"where": "tcp"}, fmt.Sprintf("a TCP client the accept callback rejected saw no close within 3 s (read err %v)", err))
+			}
+			defer rj.Close()
+			r.Cover("tcp", "rejected-client-keeps-socket")
+		}
 		cli, err := net.DialTimeout("tcp", addr.String(), 2*time.Second)
 		if err != nil {
 			r.Cover("tcp", "unavailable")
